@@ -174,6 +174,8 @@ def bypass_decisions(body, call_bb):
         t = body.blocks[d]['term']
         if t['k'] != 'switch' or d not in can_reach_call:
             continue
+        if d != call_bb and body.dominates(call_bb, d):
+            continue        # the step has been passed on every path to this decision (a loop that may run it again)
         succ = [x for x in dict.fromkeys(t['tgts']) if body.blocks[x]['term']['k'] != 'unreach']
         to_call = [x for x in succ if x in can_reach_call or x == call_bb]
         bypass = [x for x in succ if rets & body.reachable(x, avoid=[call_bb])]
@@ -254,7 +256,7 @@ MANDATORY = {
         ('dedupe::partition', r'::retain$', 1, 'the length filter', ('no_check_size',), ()),
         ('dedupe::partition', r'dedupe::was_modified$', 0, 'the modification check', ('modified_before',), ()),
         ('dedupe::partition', r'FileSubGroup.*::group$', 0, 'sub-grouping', (), (r'dedupe::was_modified$',)),
-        ('dedupe::partition', r'::extend$', -1, 'the top-up of the retained set', (), (r'dedupe::was_modified$', r'::is_empty$')),
+        ('dedupe::partition', r'Iterator>::count$|Iterator::count$', 0, 'the top-up of the retained set (its loop condition)', (), (r'dedupe::was_modified$', r'::is_empty$')),
         ('dedupe::dedupe::{closure#0}', r'dedupe::fetch_files_metadata$', 0, 'fetching the metadata of every member', (), ()),
         ('dedupe::dedupe::{closure#0}', r'dedupe::partition$', 0, 'partition() of every group whose metadata could be read', (), (r'dedupe::fetch_files_metadata$', ITER_NEXT)),
     ],
